@@ -1,5 +1,6 @@
 (* C08 — every trace of Model/Stack.v is accepted by the monitor Spec/C08Spec.v. *)
 From Verif Require Import Base.Prelude Model.Stack Spec.StackObs Spec.C08Spec Proofs.StackLemmas Proofs.StackInv.
+From Verif Require Import Model.StackX Spec.StackXSpec Proofs.StackXProofs.
 
 Definition strip (e : entry) : sentry := {| s_srv := e_srv e; s_ski := e_ski e; s_cli := e_cli e |}.
 Definition abs (l : list entry) : list sentry := map strip l.
@@ -520,3 +521,7 @@ Proof. destruct (si_ids _ (sinv_run ops init sinv_init)) as [_ [H _]]. exact H. 
 Theorem entries_owned ops : forall e, In e (subs (fst (run init ops))) ->
   exists pe en, find_peer (fst (run init ops)) (e_ski e) = Some pe /\ find_rent pe (fa_ent (e_cli e)) = Some en.
 Proof. destruct (si_ok _ (sinv_run ops init sinv_init)) as [H _]. exact H. Qed.
+
+(* ---------- teardown overlapped by another peer's registry call (Model/StackX.v) ---------- *)
+Theorem xrun_accepted ops : xaccepted (xjudge mon minit (snd (xrun init ops))) = true.
+Proof. apply (xrun_accepted_from mon Inv step_inv). exact inv_init. Qed.
